@@ -53,6 +53,12 @@ Theorem C06_output_is_whole_image : Az65.Gen.LinkArms.gen_link_output_is_write_a
 Proof. exact generated_output_is_write_all. Qed.
 Print Assumptions C06_output_is_whole_image.
 
+(* ... and, read from the same source on every run: the undefined-symbol check over every touched name is the first
+   statement of the link step and the loop over the links follows it directly - no path hands over an image before. *)
+Theorem C06_references_checked_before_output : Az65.Gen.LinkArms.gen_link_references_checked_first = true.
+Proof. exact generated_references_checked_first. Qed.
+Print Assumptions C06_references_checked_before_output.
+
 (* non-vacuity: a word patched into the middle of an image; the bytes around it are untouched *)
 Example C06_link_example :
   link_all [] [] [{| l_kind := LWord; l_off := 1; l_expr := [NValue 4660] |}] [9; 0; 0; 7]%N = Ok [9; 52; 18; 7]%N.
